@@ -524,7 +524,10 @@ fn encodings(cx: &mut Ctx, count: u64, seed: u64) {
             continue;
         }
         let ascii_only = rng.chance(1, 3);
-        let text: String = if ascii_only {
+        let text: String = if i == 0 {
+            // characters whose UTF-16 code units are themselves well-formed UTF-8 byte pairs (U+C3A9 = C3 A9, ..)
+            "k: \u{c3a9}\u{c5b4}\nl: [\u{c2a0}, \u{80c3}x]\n".to_owned()
+        } else if ascii_only {
             // an ASCII-only document (the defect class of the pinned tree)
             format!("k: {}\nlist:\n  - true\n  - abc\n", rng.below(100))
         } else {
@@ -733,7 +736,10 @@ fn boundaries(cx: &mut Ctx, seed: u64) {
 /// Pinned witnesses of the findings listed in KNOWN_FINDINGS.txt, so that each KNOWN-FINDING
 /// line is deterministic; a witness that stops failing simply validates without a deviation.
 fn witnesses(cx: &mut Ctx) {
-    let items: [(&'static str, &'static [u8], &'static [&'static str]); 5] = [
+    let items: [(&'static str, &'static [u8], &'static [&'static str]); 7] = [
+        // directives that the document uses: they belong to its chunk
+        ("yaml", b"%TAG !y! tag:yaml.org,2002:\n--- !y!str 123\n", &["json", "yaml"]),
+        ("yaml", b"- a\n...\n%TAG !y! tag:yaml.org,2002:\n---\nk: !y!str 5\n", &["json", "msgpack"]),
         ("yaml", b"", &["json", "yaml", "toml", "msgpack"]),
         ("yaml", b"# only a comment\n\n", &["json", "yaml"]),
         ("json", b"truefalse", &["json", "yaml"]),
